@@ -64,3 +64,26 @@ def step_count_in_units(u, g, opt, tu):
         if len(b["t_sample"]) != 3 or any(abs(t / b["dt"] - w) > 1e-9 for t, w in zip(b["t_sample"], [0.0, 4.0, 10.0])) or abs(b["t_max"] / b["dt"] - 10.0) > 1e-9:
             return False
     return True
+
+
+def wrapper_records_nothing_itself(opt, g, pol, first):
+    """What is recorded is decided by the engine's sampling policy alone: the wrapper asks for a record only when the USER calls
+    sample(). Setting an engine up (requested list starting at 0 or after 0, any policy), iterating and running make no
+    engineexport_sample call; one user sample() makes exactly one."""
+    option = ["euler", "tauleap", "gillespie"][opt]
+    policy = ["on_t_sample", "on_iteration", "on_interval", "no_sampling"][pol]
+    lib = RecLib()
+    e = LibRDEngine(lib, option=option, requires_molecules=option != "euler")
+    ts = [0.0, 1.0, 2.0] if first == 0 else [1.0, 2.0, 3.0]
+    sc = RDScript(mk_system(0, g, 0), ts, time_step=0.25, sampling_policy=policy, sampling_interval=0.5)
+    e.setup(sc)
+    names = [c[0] for c in lib.log]
+    if names != ["engineexport_initialize_graph" if g else "engineexport_initialize_grid"]:
+        return False
+    e.iterate()
+    e.iterate_n(2)
+    e.run(0)
+    if any(c[0] == "engineexport_sample" for c in lib.log):
+        return False
+    e.sample()
+    return sum(1 for c in lib.log if c[0] == "engineexport_sample") == 1
